@@ -48,7 +48,7 @@ type Acc struct {
 }
 
 func newAcc(f string) *Acc {
-	return &Acc{Family: f, SigCounts: map[string]int{}, perSig: map[string]int{}, Extra: map[string]int64{}}
+	return &Acc{Family: f, Mismatches: []Mismatch{}, Samples: []interface{}{}, SigCounts: map[string]int{}, perSig: map[string]int{}, Extra: map[string]int64{}}
 }
 
 const keepPerSig = 3
